@@ -782,7 +782,29 @@ def check_C30(res):
     return "(M) the TCP read loop (buffer, n_read, cached length, leftover, close after a response-less message) against the abstract length-prefixed stream for every segmentation into reads, with liveness; (V) both providers in-process on loopback: blocking with (0 base workers, no linger, 1 UDP worker), (2, 50 ms, 2), (1, 0, 3) and Tokio; per configuration n connections carrying 1-7 requests (valid, FORMERR, NOTIMP, EDNS, response-less: QR set / shorter than a header / empty / two questions), written in one piece (pipelined) or in segments of 1-4000 octets with 0-11 ms pauses; n UDP exchanges from fresh sockets; everything returned, a 40 ms window for surplus octets/datagrams, close detection"
 
 
+def check_C31(res):
+    q = res.tier == "quick"
+    run_mc(res, "MC_Reload/fixed", "MCR.tla", "MCR_fixed.cfg" if q else "MCR_deep.cfg", workers=4)
+    run_mc(res, "MC_Reload/as_found (previous entry by longest match)", "MCR.tla", "MCR_as_found.cfg", workers=2, expect_violation="ExactlyConfigured")
+    daemon = build_daemon()
+    path = tr(f"C31-reload-{res.seed}.ndjson")
+    scratch = os.path.join(OUT, "reload")
+    t = time.time()
+    r = subprocess.run([sys.executable, os.path.join(ROOT, "tools", "reload_driver.py"), daemon, path, str(res.seed), str(8 if q else 400), scratch],
+                       capture_output=True, text=True, timeout=7200)
+    if r.returncode != 0:
+        raise ToolError("reload driver failed:\n" + r.stderr[-3000:])
+    log(f"[drive] reload_driver: {sum(1 for _ in open(path))} records ({time.time() - t:.1f}s)")
+    v = validate_trace(path, "TraceReload.tla", "TraceReload.cfg", session_start=("Reset",))
+    res.add_trace("reload", v, path, own_tags=["C31"])
+    os.remove(path)
+    res.assumptions += ["zone-file modification times are set explicitly and increase with every edit (the daemon's unchanged-file shortcut compares mtimes)",
+                        "a sentinel zone whose TXT record carries the step number tells the driver when a reload has taken effect; a reload not visible after 20 s is a rejected step"]
+    return "(M) every reload history over nested zones p, c.p, d.c.p, q (any configured subset in any order, any subset loading): the catalog built by load_impl equals the declarative expectation and failures are independent; (V) histories of 2-6 steps against the running daemon built from /repo: per step a random configured subset in random order, each file rewritten valid / with a syntax error / valid syntax but failing validation (no apex NS) / deleted / left unchanged, SIGHUP, then TXT queries for every universe zone and a name below it; raw responses decoded and judged in TLC"
+
+
 CHECKS = {
+    "C31": check_C31,
     "C30": check_C30,
     "C29": check_C29,
     "C26": check_C26, "C27": check_C27, "C28": check_C28,
